@@ -15,12 +15,13 @@ parser slot).  Hypotheses that are NOT discharged in Lean, and that the correspo
   (H4) `Lark.open` on a fixed grammar is deterministic and `Lark.parse` is thread-safe (`LazySpec`).
 -/
 import PoetryVerif.Proofs.Conc
+import PoetryVerif.Proofs.ConcMarker
 
 set_option linter.unusedSimpArgs false
 set_option linter.unusedVariables false
 
 namespace Poetry.C20
-open Poetry Poetry.Conc
+open Poetry Poetry.Conc Poetry.Marker Poetry.EqHash
 
 /-! ### memoisation -/
 
@@ -92,6 +93,66 @@ theorem memo_needs_stack_purity :
   have := h [(false, 1, .call 7), (true, 1, .compute), (false, 1, .store), (false, 2, .call 7)] 2 7 (.ok 0)
     List.mem_cons_self
   simp at this
+
+/-! ### the concrete cached functions: (H2) discharged -/
+
+/-- **memo_transparent for `cnf`** (concrete marker model, any fuel, any hash function): the cache is keyed by
+`M.beq`/`mHash`; on coherent markers that is a congruence (C18: equal coherent markers are the same object), so
+in every interleaving every `cnf` call through the cache returned what the cache-free `cnf` returns for its own
+argument.  The wrapped function here is the context-free one (empty recursion stack); see `cnf_stack_irrelevant`
+for when the real call agrees with it. -/
+theorem memo_transparent_cnf (hashOf : HIn → Nat) (fuel : Nat)
+    (sched : List (Tid × MAct CM)) (t : Tid) (k : CM) (r : PyM M)
+    (h : (t, k, r) ∈ (MState.run (markerSpec hashOf (cnf fuel [])) MState.init sched).log) :
+    r = cnf fuel [] k.1 :=
+  memo_transparent _ (markerSpec_congr hashOf _) sched t k r h
+
+theorem memo_transparent_dnf (hashOf : HIn → Nat) (fuel : Nat)
+    (sched : List (Tid × MAct CM)) (t : Tid) (k : CM) (r : PyM M)
+    (h : (t, k, r) ∈ (MState.run (markerSpec hashOf (dnf fuel [])) MState.init sched).log) :
+    r = dnf fuel [] k.1 :=
+  memo_transparent _ (markerSpec_congr hashOf _) sched t k r h
+
+/-- `_merge_single_markers(marker1, marker2, merge_class)` (it takes no recursion stack at all) -/
+theorem memo_transparent_merge (hashOf : List HIn → Nat)
+    (sched : List (Tid × MAct CMerge)) (t : Tid) (k : CMerge) (r : PyM (Option M))
+    (h : (t, k, r) ∈ (MState.run (mergeSpec hashOf) MState.init sched).log) :
+    r = mergeLeaves k.1.1 k.1.2.1 k.1.2.2 :=
+  memo_transparent _ (mergeSpec_congr hashOf) sched t k r h
+
+/-- `parse_marker(text)` -/
+theorem memo_transparent_parse_marker (hashOf : String → Nat)
+    (sched : List (Tid × MAct String)) (t : Tid) (k : String) (r : PyM M)
+    (h : (t, k, r) ∈ (MState.run (parseSpec hashOf) MState.init sched).log) :
+    r = parseMarkerTop k :=
+  memo_transparent _ (parseSpec_congr hashOf) sched t k r h
+
+/-- **Why a cache keyed by version equality is unsound** (the seeded change `functools.cache` on
+`first_devrelease`): `1.0 == 1.0.0` with equal hash, but `first_devrelease` keeps the spelling (`1.0.dev0` vs
+`1.0.0.dev0`), so `Congr` FAILS and `memo_transparent`'s hypothesis cannot be met … -/
+theorem firstDev_cache_not_congruent (hashOf : Version.Key → Nat) : ¬ (firstDevSpec hashOf).Congr := by
+  intro h
+  have h1 := h (Version.mk' 0 [1, 0] none none none none) (Version.mk' 0 [1, 0, 0] none none none none)
+    (by
+      have hk : (Version.mk' 0 [1, 0] none none none none).key = (Version.mk' 0 [1, 0, 0] none none none none).key := by
+        rfl
+      have he : Version.eqv (Version.mk' 0 [1, 0] none none none none) (Version.mk' 0 [1, 0, 0] none none none none) = true := by
+        decide
+      simp [MemoSpec.hit, firstDevSpec, hk, he])
+  have h2 : (Version.mk' 0 [1, 0] none none none none).firstDevrelease.text ≠
+      (Version.mk' 0 [1, 0, 0] none none none none).firstDevrelease.text := by decide
+  simp only [firstDevSpec, Except.ok.injEq] at h1
+  exact h2 (by rw [h1])
+
+/-- … and a concrete schedule shows the damage: after `Version("1.0").first_devrelease()` was cached, another
+thread asking for `Version("1.0.0").first_devrelease()` gets the object spelled `1.0.dev0`. -/
+theorem firstDev_cache_history_dependent :
+    ∃ (sched : List (Tid × MAct Version)) (t : Tid) (k r : Version),
+      (t, k, .ok r) ∈ (MState.run (firstDevSpec (fun _ => 0)) MState.init sched).log ∧
+      r.text ≠ k.firstDevrelease.text :=
+  ⟨[(1, .call (Version.mk' 0 [1, 0] none none none none)), (1, .compute), (1, .store),
+    (2, .call (Version.mk' 0 [1, 0, 0] none none none none))], 2, Version.mk' 0 [1, 0, 0] none none none none,
+   (Version.mk' 0 [1, 0] none none none none).firstDevrelease, List.mem_cons_self, by decide⟩
 
 /-! ### per-thread recursion stacks -/
 
